@@ -43,3 +43,7 @@ chk("C22", "model_checking", "model-only BFS of abstract states to a depth bound
 chk("C24", "model_checking", "BFS over reachable store contents per prefix pair; every table/raw op executed on real Table objects over the reference store; compaction ranges enumerated for all small prefixes",
     "For all 49 prefix pairs over {'',00,a,a ff,ff,ff ff,b} plus nested chains: every sequence (depth 3 quick / 4 thorough, dedup on store contents) of put/delete/batch+replay through two tables, a nested table and the raw store; each table's Get/Has/iteration for every (prefix,start), pre- and post-op snapshots are compared with the prefix-stripped part of the store, and the raw store with the model (writes touch only prefixed keys). Compact(nil,nil)/Compact(s,l) request ranges checked for all prefixes of length <=2 over {00,01,7f,fe,ff} and 3-byte boundary prefixes, plain and nested.",
     "The table wrapper is stateless, so states are store contents. ref/kv is the trusted base.", "E2; DESIGN §7 C24")
+
+chk("C33", "model_checking", "bounded-depth exhaustive enumeration of AddRoot/GetFrameRoots/epoch-switch/restart sequences on the real abft.Store for 16 cache configurations, against a set model",
+    "Every sequence up to depth 4 (quick) / 6 (thorough) over 12 AddRoot variants (multi-frame jumps, two events of one creator), 3 queries, epoch switch through Orderer.Reset and restart over the same DBs, for RootsNum in {0,1,2,1000} x RootsFrames in {0,1,2,100}; every query result and a final double query of all frames are compared, as sets of (frame, validator, id), with the model; new epoch => empty.",
+    "The LRU inside the store is hidden state, so sequences are not deduplicated.", "E2; DESIGN §3.2 C33")
